@@ -508,17 +508,26 @@ def get_model_parser(top_rule, comments_model, **kwargs):
                     self._replace_user_attr_methods_for_class(user_class)
                 else:
                     user_class._tx_instrumented += 1
+            # Each parser replaces and restores exactly once.
+            self._user_attr_methods_replaced = True
 
         def _restore_user_attr_methods(self):
             """
             Restore original get/set/del(attr) methods on user
             classes.
             """
+            if not getattr(self, "_user_attr_methods_replaced", False):
+                return
+            self._user_attr_methods_replaced = False
             for user_class in self.metamodel.user_classes.values():
                 if hasattr(user_class, "_tx_instrumented"):
                     user_class._tx_instrumented -= 1
                     if user_class._tx_instrumented == 0:
                         delattr(user_class, "_tx_instrumented")
+                        # No model using this class is being loaded any more.
+                        # Drop the attributes collected for objects of loads
+                        # that failed.
+                        user_class._tx_obj_attrs.clear()
                         for a_name in ("getattr", "setattr", "delattr", "getattribute"):
                             cached_name = f"_tx_real_{a_name}"
                             real_name = f"__{a_name}__"
@@ -1013,6 +1022,10 @@ def parse_tree_to_objgraph(
                 # (remove all of them, not only the model with errors,
                 # since, models with errors may be included in other models)
                 remove_models_from_repositories(models, models)
+                # ... and do not leave user classes instrumented on behalf of
+                # models whose construction will never be finished
+                for m in models:
+                    m._tx_parser._restore_user_attr_methods()
                 raise
 
         if metamodel.textx_tools_support and type(model) not in PRIMITIVE_PYTHON_TYPES:
@@ -1056,17 +1069,21 @@ def _end_model_construction(model):
     # "normal" behavior
     if hasattr(model, "_tx_parser"):  # not for, e.g., str
         the_parser = model._tx_parser
+
+        # Get the attributes which have been collected
+        # in metamodel.obj and remove them from this dict.
+        collected_attrs = [
+            (obj, obj.__class__._tx_obj_attrs.pop(id(obj)))
+            for obj in the_parser._user_class_inst
+        ]
+
         the_parser._restore_user_attr_methods()
 
         # If the the attributes to the class have been
         # collected in _tx_obj_attrs we need to do a proper
         # initialization at this point.
-        for obj in the_parser._user_class_inst:
+        for obj, attrs in collected_attrs:
             try:
-                # Get the attributes which have been collected
-                # in metamodel.obj and remove them from this dict.
-                attrs = obj.__class__._tx_obj_attrs.pop(id(obj))
-
                 # First try to apply attributes directly. It might
                 # not be possible for some (e.g. __slots__ are used)
                 for name, value in attrs.items():
@@ -1107,6 +1124,11 @@ def _remove_all_affected_models_in_construction(model):
         filter(lambda x: hasattr(x, "_tx_reference_resolver"), all_affected_models)
     )
     remove_models_from_repositories(all_affected_models, models_to_be_removed)
+    # User classes must not stay instrumented on behalf of models (e.g. imported
+    # ones) whose construction will never be finished.
+    for m in models_to_be_removed:
+        if hasattr(m, "_tx_parser"):
+            m._tx_parser._restore_user_attr_methods()
 
 
 class ReferenceResolver:
